@@ -80,10 +80,14 @@ def snapshot(obj: Any = undefined) -> Any:
     if module is not None and module.__file__ is not None:
         state().files_with_snapshots.add(module.__file__)
 
-    key = id(frame.f_code), frame.f_lasti
+    node = expr.node if expr is not None else None
+
+    # one snapshot per call in the source code: the same call can be reached by
+    # several instructions (the body of a finally block is compiled twice) and by
+    # several code objects (a file which is imported under two module names)
+    key = node if node is not None else (id(frame.f_code), frame.f_lasti)
 
     if key not in state().snapshots:
-        node = expr.node
         if node is None:
             # we can run without knowing of the calling expression but we will not be able to fix code
             state().snapshots[key] = SnapshotReference(obj, None, context)
